@@ -30,43 +30,60 @@ namespace GunYu.Props.C02
 open GunYu GunYu.Sender GunYu.Target
 
 /-- item offsets increase along the schedule (every item is the end of a
-    distinct source command), starting above `last`; only an `EXEC` item -- which
-    is never queued -- may repeat the offset of the item before it (the parser
-    gives the `EXEC` that closes a transaction inside a filtered database the
-    offset of the last forwarded item, `Props.C01.parser_keeps_order`) -/
-def SMono : Int → List Ev → Prop
-  | _, [] => True
-  | last, .item it :: rest =>
-      last ≤ it.offset ∧ (it.cmd ≠ bExec → last < it.offset) ∧ SMono it.offset rest
-  | last, _ :: rest => SMono last rest
+    distinct source command), starting above `last`; only an item the sender
+    does not queue -- a transaction bracket -- may repeat the offset of the item
+    before it (the parser hands a bracket over from inside a filtered database
+    with the offset of the last forwarded item, `Props.C01.parser_keeps_order`).
+    `t` is the sender's transaction status before the schedule. -/
+def SMono : Txn → Int → List Ev → Prop
+  | _, _, [] => True
+  | t, last, .item it :: rest =>
+      last ≤ it.offset ∧
+      (it.cmd ≠ bPing → forwards (txnStatus it.cmd t).1 = true → last < it.offset) ∧
+      SMono (fwd1 t (.item it)).2 it.offset rest
+  | t, last, _ :: rest => SMono t last rest
 
-theorem smono_step (s : SState) (ev : Ev) (rest : List Ev) (h : SMono s.lastOffset (ev :: rest)) :
-    (∀ it, ev = .item it → s.lastOffset ≤ it.offset ∧ (it.cmd ≠ bExec → s.lastOffset < it.offset)) ∧
-    SMono (newLast s ev) rest := by
-  cases ev <;> simp [SMono, newLast] at h ⊢ <;> first | exact h | exact ⟨⟨h.1, h.2.1⟩, h.2.2⟩
+theorem smono_step (s : SState) (ev : Ev) (rest : List Ev) (h : SMono s.txn s.lastOffset (ev :: rest)) :
+    (∀ it, ev = .item it → s.lastOffset ≤ it.offset ∧
+      (it.cmd ≠ bPing → forwards (txnStatus it.cmd s.txn).1 = true → s.lastOffset < it.offset)) ∧
+    SMono (fwd1 s.txn ev).2 (newLast s ev) rest := by
+  cases ev with
+  | item it =>
+    refine ⟨?_, h.2.2⟩
+    intro it' he; cases he; exact ⟨h.1, h.2.1⟩
+  | batchTick => exact ⟨fun _ he => (nomatch he), h⟩
+  | keepaliveTick => exact ⟨fun _ he => (nomatch he), h⟩
+  | cpTick => exact ⟨fun _ he => (nomatch he), h⟩
+  | done => exact ⟨fun _ he => (nomatch he), h⟩
 
-theorem smono_of_itemsMono (last : Int) (evs : List Ev) (h : ItemsMono last (itemsOf evs)) :
-    SMono last evs := by
-  induction evs generalizing last with
+theorem smono_of_itemsMono (t : Txn) (last : Int) (evs : List Ev) (h : ItemsMono t last (itemsOf evs)) :
+    SMono t last evs := by
+  induction evs generalizing t last with
   | nil => trivial
   | cons ev rest ih =>
     cases ev with
-    | item it => exact ⟨h.1, h.2.1, ih _ h.2.2⟩
-    | batchTick => exact ih _ h
-    | keepaliveTick => exact ih _ h
-    | cpTick => exact ih _ h
-    | done => exact ih _ h
+    | item it =>
+      refine ⟨h.1, h.2.1, ?_⟩
+      have : (fwd1 t (.item it)).2 = txnAfter t it := by
+        simp only [fwd1, txnAfter]; split <;> rfl
+      rw [this]; exact ih _ _ h.2.2
+    | batchTick => exact ih _ _ h
+    | keepaliveTick => exact ih _ _ h
+    | cpTick => exact ih _ _ h
+    | done => exact ih _ _ h
 
-theorem smono_weaken {a b : Int} (hab : a ≤ b) (evs : List Ev) (h : SMono b evs) : SMono a evs := by
-  induction evs with
+theorem smono_weaken {a b : Int} (t : Txn) (hab : a ≤ b) (evs : List Ev) (h : SMono t b evs) :
+    SMono t a evs := by
+  induction evs generalizing t with
   | nil => trivial
   | cons ev rest ih =>
     cases ev with
-    | item it => exact ⟨by have := h.1; omega, fun hne => by have := h.2.1 hne; omega, h.2.2⟩
-    | batchTick => exact ih h
-    | keepaliveTick => exact ih h
-    | cpTick => exact ih h
-    | done => exact ih h
+    | item it =>
+      exact ⟨by have := h.1; omega, fun hp hf => by have := h.2.1 hp hf; omega, h.2.2⟩
+    | batchTick => exact ih t h
+    | keepaliveTick => exact ih t h
+    | cpTick => exact ih t h
+    | done => exact ih t h
 
 /-- **The hypothesis of every theorem below is what the real parser delivers**:
     for ANY filter / mapping configuration, any source stream whose commands end
@@ -76,13 +93,13 @@ theorem parser_feeds_smono (pc : PCfg) (raws : List Raw) (start : Int) (evs : Li
     (hitems : itemsOf evs = parseAll pc { lastSent := start } raws)
     (hraw : (raws.map (·.off)).Pairwise (· < ·)) (hlo : ∀ r ∈ raws, start < r.off)
     (hstart : 0 ≤ start) :
-    SMono initS.lastOffset evs :=
-  smono_weaken (by simp only [initS]; omega) evs (smono_of_itemsMono start evs (by
-    rw [hitems]; exact parseAll_itemsMono pc raws { lastSent := start } hraw hlo))
+    SMono initS.txn initS.lastOffset evs :=
+  smono_weaken _ (by simp only [initS]; omega) evs (smono_of_itemsMono _ start evs (by
+    rw [hitems]; exact parseAll_itemsMono pc raws { lastSent := start } initS.txn rfl hraw hlo))
 
 /-- the whole run keeps the wire ordered, and bounded by what is still pending -/
 theorem run_ok (c : SCfg) (s : SState) (evs : List Ev) (hq : QOk s.queue s.lastOffset)
-    (hm : SMono s.lastOffset evs) :
+    (hm : SMono s.txn s.lastOffset evs) :
     StepOK s.queue s.lastOffset (run c s evs).1.queue (run c s evs).1.lastOffset
       (keys (run c s evs).2) := by
   induction evs generalizing s with
@@ -94,21 +111,21 @@ theorem run_ok (c : SCfg) (s : SState) (evs : List Ev) (hq : QOk s.queue s.lastO
     split
     · exact h1
     · have hl := (step_cp c s ev).1
-      have h2 := ih (step c s ev).1 h1.1 (by rw [hl]; exact hrest)
+      have h2 := ih (step c s ev).1 h1.1 (by rw [hl, (step_data c s ev).2]; exact hrest)
       rw [keys_append]
       exact stepOK_trans h1 h2
 
 /-- **The wire is ordered**: for every configuration, every stream with
     increasing offsets and every schedule of ticks, the key sequence is
     non-decreasing. -/
-theorem wire_ordered (c : SCfg) (evs : List Ev) (hm : SMono initS.lastOffset evs) :
+theorem wire_ordered (c : SCfg) (evs : List Ev) (hm : SMono initS.txn initS.lastOffset evs) :
     (keys (run c initS evs).2).Pairwise (· ≤ ·) :=
   (run_ok c initS evs (qok_nil _) hm).2.1.1
 
 /-- **Nothing received after a stored position is covered by it** (no write
     skipped): wherever `<rid>_offset o` sits on the wire, every data command
     after it ends at an offset > o. -/
-theorem nothing_skipped (c : SCfg) (evs : List Ev) (hm : SMono initS.lastOffset evs)
+theorem nothing_skipped (c : SCfg) (evs : List Ev) (hm : SMono initS.txn initS.lastOffset evs)
     (A B : List Int) (o : Int) (hsplit : keys (run c initS evs).2 = A ++ (2 * o + 1) :: B) :
     ∀ y, 2 * y ∈ B → o < y := by
   intro y hy
@@ -120,7 +137,7 @@ theorem nothing_skipped (c : SCfg) (evs : List Ev) (hm : SMono initS.lastOffset 
 /-- **Everything received before a stored position is covered by it** (no write
     repeated once the position is durable): every data command before
     `<rid>_offset o` on the wire ends at an offset ≤ o. -/
-theorem nothing_left_uncovered (c : SCfg) (evs : List Ev) (hm : SMono initS.lastOffset evs)
+theorem nothing_left_uncovered (c : SCfg) (evs : List Ev) (hm : SMono initS.txn initS.lastOffset evs)
     (A B : List Int) (o : Int) (hsplit : keys (run c initS evs).2 = A ++ (2 * o + 1) :: B) :
     ∀ y, 2 * y ∈ A → y ≤ o := by
   intro y hy
@@ -132,7 +149,7 @@ theorem nothing_left_uncovered (c : SCfg) (evs : List Ev) (hm : SMono initS.last
 /-- **What is still queued is beyond every stored position**: a command the
     loop holds but has not sent (e.g. the SELECT or the commands of an open
     transaction) ends after every checkpoint offset written so far. -/
-theorem pending_not_covered (c : SCfg) (evs : List Ev) (hm : SMono initS.lastOffset evs) :
+theorem pending_not_covered (c : SCfg) (evs : List Ev) (hm : SMono initS.txn initS.lastOffset evs) :
     ∀ o ∈ cpOffsets (run c initS evs).2, ∀ i ∈ (run c initS evs).1.queue, o < i.offset := by
   intro o ho i hi
   obtain ⟨hqok, hw, _⟩ := run_ok c initS evs (qok_nil _) hm
@@ -243,7 +260,7 @@ theorem stored_comes_from (E : List Req) (t : TState) (d : Int) (o : Int)
     position `o` that this run stored on it — in whichever database — lies
     strictly below every data command (SELECT items included) it did not
     execute: restarting from a stored position re-reads every such command. -/
-theorem crash_loses_no_write (c : SCfg) (evs : List Ev) (hm : SMono initS.lastOffset evs)
+theorem crash_loses_no_write (c : SCfg) (evs : List Ev) (hm : SMono initS.txn initS.lastOffset evs)
     (t : TState) (hq : t.queued = none) (k : Nat) :
     let out := (run c initS evs).2
     ∃ E R, bodies out = E ++ R ∧
@@ -336,7 +353,7 @@ theorem cp_bodies_of_mem {b : Batch} {l : List Batch} (hwf : AllWF l) (h : b ∈
     replayed twice. (With `crash_loses_no_write`: the stored position is exactly
     the boundary between executed and not executed.) -/
 theorem txn_crash_repeats_nothing (c : SCfg) (hc : c.txnMode = true) (hres : c.resume = true)
-    (evs : List Ev) (hm : SMono initS.lastOffset evs) (hnn : NonNeg evs)
+    (evs : List Ev) (hm : SMono initS.txn initS.lastOffset evs) (hnn : NonNeg evs)
     (t : TState) (hq : t.queued = none) (k : Nat) :
     let out := (run c initS evs).2
     ∃ E, SameData (applyLog t (out.flatten.take k)) (E.foldl execReq t) ∧
@@ -388,7 +405,7 @@ theorem txn_crash_repeats_nothing (c : SCfg) (hc : c.txnMode = true) (hres : c.r
     precedes it, and by `nothing_skipped` no SELECT that follows it is covered by
     `o` — and every other database holds a strictly smaller offset: the largest
     offset (what `GetCheckpoint` picks) identifies exactly that database. -/
-theorem crash_resume_db (c : SCfg) (evs : List Ev) (hm : SMono initS.lastOffset evs)
+theorem crash_resume_db (c : SCfg) (evs : List Ev) (hm : SMono initS.txn initS.lastOffset evs)
     (t : TState) (hfresh : t.cps = []) (k : Nat)
     (E : List Req) (hE : E <+: bodies (run c initS evs).2)
     (hsame : SameData (applyLog t ((run c initS evs).2.flatten.take k)) (E.foldl execReq t))
@@ -433,7 +450,8 @@ def exEvs : List Ev :=
     .item { cmd := [115,101,116], args := [[99],[100]], offset := 1095, db := 1 },
     .item { cmd := bExec, args := [], offset := 1109, db := 1 } ]
 
-example : SMono initS.lastOffset exEvs := by simp [SMono, exEvs, initS]
+example : SMono initS.txn initS.lastOffset exEvs := by
+  simp [SMono, exEvs, initS, fwd1, forwards, txnStatus, cmdClass]
 example : NonNeg exEvs := by simp [NonNeg, exEvs]
 example : exCfg.txnMode = true ∧ exCfg.resume = true := ⟨rfl, rfl⟩
 example : keys (run exCfg initS exEvs).2 = [2060, 2061, 2106, 2107, 2107, 2190, 2219] := by decide +kernel
